@@ -111,6 +111,56 @@ def readLine (raw : Bool) : Nat → List UInt8 → List UInt8 → ReadLine
             else readLine raw fuel rest3 (acc ++ ch2)
       else readLine raw fuel rest' (acc ++ ch)
 
+/-! ## short reads: `read(2)` on a pipe may return fewer bytes than asked for -/
+
+/-- Collecting `need` more bytes with `read(2)` calls that ask for everything still missing but may be
+    cut short: `shorts` lists, call by call, how many bytes the pipe has at that moment (0 counts as
+    1: the call blocks until at least one byte is there).  Returns (bytes obtained, input left,
+    schedule left).  With `len += count` — the code as it is — the loop simply asks again. -/
+def gatherF : Nat → Nat → List UInt8 → List Nat → List UInt8 × List UInt8 × List Nat
+  | 0, _, input, sh => ([], input, sh)
+  | _ + 1, 0, input, sh => ([], input, sh)
+  | fuel + 1, need + 1, input, sh =>
+    let c := min (need + 1) (max 1 (sh.headD 1))
+    match input with
+    | [] => ([], [], sh.tail)                       -- end of input
+    | _ :: _ =>
+      let (g, r, sh') := gatherF fuel (need + 1 - c) (input.drop c) sh.tail
+      (input.take c ++ g, r, sh')
+
+def gather (need : Nat) (input : List UInt8) (sh : List Nat) : List UInt8 × List UInt8 × List Nat :=
+  gatherF need need input sh
+
+/-- `read_char` where the first byte is read alone and the rest of the character is requested at
+    once, under short reads -/
+def readCharChunked (b : UInt8) (rest : List UInt8) (sh : List Nat) : Option (List UInt8 × List UInt8) × List Nat :=
+  let k := utf8SeqLen b
+  if k = 0 then (none, sh)
+  else
+    let (tail, rest', sh') := gather (k - 1) rest sh
+    if tail.length = k - 1 ∧ tail.all (fun c => 0x80 ≤ c && c < 0xC0) then (some (b :: tail, rest'), sh')
+    else (none, sh')
+
+/-- `input::read` over `readCharChunked` -/
+def readLineChunked (raw : Bool) : Nat → List UInt8 → List UInt8 → List Nat → ReadLine
+  | 0, _, acc, _ => .line acc false []
+  | _ + 1, [], acc, _ => .line acc false []
+  | fuel + 1, b :: rest, acc, sh =>
+    match readCharChunked b rest sh with
+    | (none, _) => .eilseq
+    | (some (ch, rest'), sh') =>
+      if ch = [10] then .line acc true rest'
+      else if ch = [92] ∧ !raw then
+        match rest' with
+        | [] => .line acc false []
+        | b2 :: rest2 =>
+          match readCharChunked b2 rest2 sh' with
+          | (none, _) => .eilseq
+          | (some (ch2, rest3), sh'') =>
+            if ch2 = [10] then readLineChunked raw fuel rest3 acc sh''
+            else readLineChunked raw fuel rest3 (acc ++ ch2) sh''
+      else readLineChunked raw fuel rest' (acc ++ ch) sh'
+
 /-- exit status of `read` (read.rs `main`): 3 = read error (EILSEQ, or a NUL in the input),
     0 = a complete line, 1 = end of input before a newline; and the value assigned (IFS empty) -/
 def readBuiltin (raw : Bool) (input : List UInt8) : Nat × List UInt8 × List UInt8 :=
